@@ -754,6 +754,13 @@ def build_geom_cases(ctx):
                 ops = [{"op": o, "opt": opt, "periodic": per} for o in ("angles", "dihedrals") for opt in (True, False)
                        for per in (True, False)]
                 cases.append({"gen": gen, "ops": ops})
+    # dedicated stream: molecules split across faces of a cell that changes in every frame (each frame must be
+    # treated with ITS cell; mixes of orthorhombic and triclinic frames go through the triclinic kernels)
+    for _ in range(6 if quick else 120):
+        gen = {"kind": "split", "cell": rng.choice(["ortho", "tric", "tric"]), "n": rng.randint(6, 12), "F": 4, "m": 8, "mirror": False,
+               "varcell": True, "seed": rng.randrange(1, 2 ** 31 - 1)}
+        ops = [{"op": o, "opt": opt, "periodic": True} for o in ("angles", "dihedrals") for opt in (True, False)]
+        cases.append({"gen": gen, "ops": ops})
     return cases
 
 
